@@ -94,6 +94,9 @@ def check_case(case):
         raise Violation('rewritten_constant_untyped', where)
       scale = np.asarray(a_t['scale'], np.float64)
       zp = np.asarray(a_t['zp'] if a_t['zp'] is not None else [0] * scale.size, np.int64)
+      rank = len(a_t['shape'] or [])
+      if a_t['qdim'] < 0 or (rank and a_t['qdim'] >= rank):
+        raise Violation('constant_quantized_dimension_out_of_range', '%s qdim=%d rank=%d' % (where, a_t['qdim'], rank))
       if scale.size != zp.size or scale.size not in (1, (a_t['shape'] or [1])[a_t['qdim']] if a_t['shape'] else 1):
         raise Violation('constant_param_length', '%s scale=%d zp=%d qdim=%d' % (where, scale.size, zp.size, a_t['qdim']))
       if not np.all(np.isfinite(scale)) or np.any(scale <= 0):
